@@ -924,7 +924,14 @@ func cliLazyRuns(c *run.Ctx, s *kit.Summary, format string, runs, parallel int) 
 			defer wg.Done()
 			for id := range next {
 				prefix := fmt.Sprintf("/%s/r%d", format, id)
+				// mostly 3 targets (fewer targets than workers); every eighth run 40, so that workers
+				// come back for a second and third target
 				paths := []string{prefix + "/t0", prefix + "/t1", prefix + "/t2"}
+				if id%8 == 7 {
+					for j := 3; j < 40; j++ {
+						paths = append(paths, prefix+"/t"+strconv.Itoa(j))
+					}
+				}
 				var src bytes.Buffer
 				if format == "http" {
 					for _, p := range paths {
@@ -945,19 +952,35 @@ func cliLazyRuns(c *run.Ctx, s *kit.Summary, format string, runs, parallel int) 
 				out, err := cmd.CombinedOutput()
 				cancel()
 				mu.Lock()
-				got := []int{counts[paths[0]], counts[paths[1]], counts[paths[2]]}
-				for _, p := range paths {
+				got := make([]int, len(paths))
+				once := true
+				wrong := ""
+				for j, p := range paths {
+					got[j] = counts[p]
+					once = once && got[j] == 1
 					delete(counts, p)
+					if m, ok := mixed[p]; ok {
+						wrong += p + ": " + m + "; "
+						delete(mixed, p)
+					}
 				}
 				mu.Unlock()
 				vmu.Lock()
 				s.Count("cli:lazy_runs_" + format)
-				if (got[0] != 1 || got[1] != 1 || got[2] != 1) && !reported {
+				if !once && !reported {
 					reported = true
 					s.Violate(kit.Violation{Kind: "cli_lazy_not_exactly_once",
 						What:     "vegeta attack -lazy with 16 workers did not request every target of the file exactly once",
 						Input:    cliCase{Format: format, Runs: 3000},
-						Expected: "requests per target: [1 1 1]", Observed: fmt.Sprintf("run %d: requests per target %v (exit error %v; output %s)", id, got, err, tail(string(out), 200)),
+						Expected: "one request per target", Observed: fmt.Sprintf("run %d: requests per target %v (exit error %v; output %s)", id, got, err, tail(string(out), 200)),
+						Key: map[string]interface{}{"format": format}})
+				}
+				if wrong != "" && !reported {
+					reported = true
+					s.Violate(kit.Violation{Kind: "cli_lazy_target_mixed",
+						What:     "vegeta attack -lazy with 16 workers sent a request whose header values are not exactly its target's own value and the one default value",
+						Input:    cliCase{Format: format, Runs: 3000},
+						Expected: "each request: X-Target-Id [its own path], X-Dflt [\"d\"]", Observed: fmt.Sprintf("run %d: %s", id, tail(wrong, 600)),
 						Key: map[string]interface{}{"format": format}})
 				}
 				vmu.Unlock()
